@@ -6,6 +6,7 @@ import (
 	"encoding/json"
 	"fmt"
 	"os"
+	"os/exec"
 	"path/filepath"
 	"runtime"
 	"sort"
@@ -373,4 +374,118 @@ func oneLine(s string) string {
 		}
 	}
 	return string(b)
+}
+
+// ------------------------------------------------------------------ sharding over worker processes
+
+type partial struct {
+	Evals       int64             `json:"evals"`
+	Distinct    []string          `json:"distinct"`
+	Ints        map[string]int    `json:"ints"`
+	Samples     []any             `json:"samples"`
+	Violations  []Violation       `json:"violations"`
+	KnownHits   map[string]int    `json:"known_hits"`
+	KnownFirst  map[string]string `json:"known_first"`
+	Caps        []string          `json:"caps"`
+	EngineError string            `json:"engine_error"`
+}
+
+// Sharded runs work(shard, n) in n worker processes (the same binary with the same arguments) and
+// merges their counts, outcomes, samples, caps and reports into r. Checks whose engine relies on
+// process-global hooks (the controlled scheduler) use it to spread independent scenarios over the
+// cores. Integer coverage keys set with Add are summed; Set values must be set by the caller after
+// Sharded returns.
+func (r *Run) Sharded(n int, work func(shard, n int)) {
+	if s := os.Getenv("VERIF_SHARD"); s != "" {
+		var shard, total int
+		fmt.Sscanf(s, "%d/%d", &shard, &total)
+		work(shard, total)
+		r.mu.Lock()
+		p := partial{Evals: r.evals, Ints: map[string]int{}, Samples: r.samples, Violations: r.violations, KnownHits: r.knownHits, KnownFirst: r.knownFirst, Caps: r.capsHit, EngineError: r.engineError}
+		for k := range r.distinct {
+			p.Distinct = append(p.Distinct, k)
+		}
+		for k, v := range r.Cov {
+			if i, ok := v.(int); ok {
+				p.Ints[k] = i
+			}
+		}
+		r.mu.Unlock()
+		b, _ := json.Marshal(p)
+		os.WriteFile(os.Getenv("VERIF_SHARD_OUT"), b, 0o644)
+		os.Exit(0)
+	}
+	dir, err := os.MkdirTemp("", "verif-shards-")
+	if err != nil {
+		r.EngineError(err.Error())
+		return
+	}
+	defer os.RemoveAll(dir)
+	var wg sync.WaitGroup
+	outs := make([]string, n)
+	errs := make([]string, n)
+	for i := 0; i < n; i++ {
+		wg.Add(1)
+		go func(i int) {
+			defer wg.Done()
+			outs[i] = filepath.Join(dir, fmt.Sprintf("s%d.json", i))
+			cmd := exec.Command(os.Args[0], os.Args[1:]...)
+			cmd.Env = append(os.Environ(), fmt.Sprintf("VERIF_SHARD=%d/%d", i, n), "VERIF_SHARD_OUT="+outs[i])
+			b, err := cmd.CombinedOutput()
+			if err != nil {
+				errs[i] = fmt.Sprintf("shard %d: %v: %s", i, err, clip(string(b), 2000))
+			}
+		}(i)
+	}
+	wg.Wait()
+	for i := 0; i < n; i++ {
+		if errs[i] != "" {
+			r.EngineError(errs[i])
+			continue
+		}
+		b, err := os.ReadFile(outs[i])
+		if err != nil {
+			r.EngineError(fmt.Sprintf("shard %d wrote no result: %v", i, err))
+			continue
+		}
+		var p partial
+		if err := json.Unmarshal(b, &p); err != nil {
+			r.EngineError(fmt.Sprintf("shard %d result: %v", i, err))
+			continue
+		}
+		r.mu.Lock()
+		r.evals += p.Evals
+		for _, k := range p.Distinct {
+			r.distinct[k] = struct{}{}
+		}
+		for k, v := range p.Ints {
+			if k == "violating_cases" {
+				continue
+			}
+			old, _ := r.Cov[k].(int)
+			r.Cov[k] = old + v
+		}
+		for _, s := range p.Samples {
+			if len(r.samples) < 12 {
+				r.samples = append(r.samples, s)
+			}
+		}
+		for k, v := range p.KnownHits {
+			r.knownHits[k] += v
+			if _, ok := r.knownFirst[k]; !ok {
+				r.knownFirst[k] = p.KnownFirst[k]
+			}
+		}
+		if len(p.Caps) > 0 {
+			r.capsHit = append(r.capsHit, p.Caps...)
+			r.exhaustive = false
+		}
+		if p.EngineError != "" && r.engineError == "" {
+			r.engineError = p.EngineError
+		}
+		r.mu.Unlock()
+		for _, v := range p.Violations {
+			r.Report(v.Sig, v.What, v.Replay, v.Observed, v.Expected)
+		}
+	}
 }
